@@ -108,8 +108,11 @@ Definition bound_ok (st : dstate) (bytes : N) : bool :=
       let n := BitSpec.count true s in
       B <=? n * lg_floor_ratio (lenN s) n + (if sa_has_rank m then 11 else 7) * n + 8192
   | DEF m u xs _ _ =>
-      let n := lenN xs in
-      B <=? n * ef_low_len m + (match da_s0 (ef_high m) with Some _ => 11 | None => 7 end) * n + 8192
+      (* n = the number of values the builder was created for (EliasFanoBuilder::new's num_vals; equal to the
+         number of stored values whenever the builder was filled, as from_bits / SArray / Psef always do),
+         recovered from the length of the high vector: num_vals + 2 + (universe >> low_len) *)
+      let n := da_num_bits (ef_high m) - 2 - N.shiftr u (ef_low_len m) in
+      B <=? lenN xs * ef_low_len m + (match da_s0 (ef_high m) with Some _ => 11 | None => 7 end) * n + 8192
   | DPS m xs _ =>
       let n := lenN xs in
       B <=? n * ef_low_len (ps_ef m) + 7 * n + 8192
